@@ -169,7 +169,7 @@ Inductive body :=
             (expected : res (list nat * (list Z * list (mat Z)))) (after : list (mat Z)) (shared : list bool) (list_same : bool)
 | QHeapNorm (tape : list (list Q)) (arrs : list (mat Q)) (ls : list nat) (w : option nat) (is_class : bool) (meth : nat)
             (expected : res (list nat * (list Q * list (mat Q)))) (after : list (mat Q)) (shared : list bool) (list_same self_is_result : bool)
-| ZHeapStale (inplace : bool) (arrs : list (mat Z)) (ls newls : list nat) (w : nat) (copy : bool) (x : operand (F:=Z)) (mode : nat) (keep_dim : bool)
+| ZHeapStale (inplace refresh : bool) (arrs : list (mat Z)) (ls newls : list nat) (w : nat) (copy : bool) (x : operand (F:=Z)) (mode : nat) (keep_dim : bool)
              (expected : res (list nat * (list Z * list (mat Z))))
 | QTkNormBc (tape : list (list Q)) (core : tensor Q) (fs : list (mat Q)) (expected : res (list nat * list nat * (tensor Q * list (mat Q))))
 | QAlign (norm_t : bool) (rw : list Q) (rfs : list (mat Q)) (tw : list Q) (tfs : list (mat Q)) (tA tB : list (list Q)) (perm : list nat).
@@ -306,16 +306,21 @@ Definition agree_body (b : body) : bool :=
       match run, e with
       | Ok (h', o), Ok e' =>
           qobj_close (read_obj h' o) e' &&
-          Bool.eqb (fresh_okq arrs (firstn (length arrs) (h_arr h')) (owned_any h' [o] (length arrs)) (nat_list_eqb (lst h' 0) ls))
+          Bool.eqb (fresh_okq arrs (firstn (length arrs) (h_arr h')) (owned_any h' [o] (length arrs))
+                              (nat_list_eqb (lst h' 0) ls &&
+                               match meth with                              (* inplace=False: the operand's own cell is left alone *)
+                               | 2%nat => Nat.eqb (c_fs (obj h' 0%nat)) 0%nat && Nat.eqb (c_w (obj h' 0%nat)) (c_w (obj h0 0%nat))
+                               | _ => true
+                               end))
                    (fresh_okq arrs after shared same) &&
           Bool.eqb (match meth with 0%nat => false | _ => Nat.eqb o 0%nat end) self_res
       | Err, Err => true
       | _, _ => false
       end
-  | ZHeapStale inplace arrs ls newls w cp x m kd e =>
+  | ZHeapStale inplace refresh arrs ls newls w cp x m kd e =>
       (* obj[1] = <another list of factors> (the shape attribute stays), then a mode product on the object *)
       let h0 := mk_heap arrs [ls; newls] [mk_cell (cp_shape (map (fun l => nth l arrs []) ls)) w 0%nat] in
-      match rbind (setitem_h h0 0%nat 1%nat 1%nat) (fun h1 => cp_mode_dot_h_src Zops inplace h1 (RObject 0%nat) cp x m kd), e with
+      match rbind ((if refresh then setitem_refresh_h else setitem_h) h0 0%nat 1%nat 1%nat) (fun h1 => cp_mode_dot_h_src Zops inplace h1 (RObject 0%nat) cp x m kd), e with
       | Ok (h', o), Ok e' => obj_eqb zcp_dense_eqb (read_obj h' o) e'
       | Err, Err => true
       | _, _ => false
